@@ -317,6 +317,7 @@ package schema
 //@   ensures panics ==> errWF(pv)
 //@   ensures normal ==> keysWF(k) && len(k.Data) == old(len(k.Data)) + 1 && k.Data[old(len(k.Data))].Key == v.Key && k.Data[old(len(k.Data))].IsShortcut == v.IsShortcut
 //@   ensures normal ==> (forall j :: 0 <= j && j < old(len(k.Data)) ==> k.Data[j] == old(k.Data[j]))
+//@   ensures normal && old(keysComplete(k)) ==> keysComplete(k)
 
 //@ func (ObjectNodeKeys).Get(key, isShortcut)
 //@   props C01 C13
@@ -344,3 +345,8 @@ package schema
 //@   requires n.keys != nil && keysWF(n.keys) && (forall j :: 0 <= j && j < len(n.keys.Data) ==> n.keys.Data[j].Index < len(n.children)) && len(rawKey) <= 1000000000000
 //@   nopanic
 //@   ensures !userTypeName(rawKey) ==> (exists s string :: spellsDecoded(s, rawKey) && (forall q indexKey :: q.Key == s && !q.IsShortcut ==> result1 == dom(n.keys.index, q) && (result1 ==> result0 == n.children[n.keys.index[q]])))
+
+//@ func (ObjectNode).Keys()
+//@   props C09 C01
+//@   pure
+//@   ensures result == n.keys
